@@ -31,10 +31,11 @@ func rulesC12(c *Ctx) {
 	ruleDoGetGuards(c)
 	ruleRecoverOnConversion(c)
 	ruleExactInstanceLookup(c)
-	ruleNarrowingKeys(c)     // an out-of-range label is rejected, not truncated onto an installed key (shared with C01)
-	ruleServerFlushTable(c)  // Flush rejects unknown / empty instance names before touching the RIB (shared with C08)
-	ruleStopSignal(c)        // a malformed Get cannot hang the RPC: the handler never waits for the producer before telling it to stop (shared with C10)
-	ruleRetryAfterInstall(c) // an invalid operation is answered FAILED, never held: a hold needs an attempt that returned (not installed, no error) (shared with C02)
+	ruleNarrowingKeys(c)                              // an out-of-range label is rejected, not truncated onto an installed key (shared with C01)
+	ruleServerFlushTable(c)                           // Flush rejects unknown / empty instance names before touching the RIB (shared with C08)
+	ruleStopSignal(c)                                 // a malformed Get cannot hang the RPC: the handler never waits for the producer before telling it to stop (shared with C10)
+	ruleRetryAfterInstall(c)                          // an invalid operation is answered FAILED, never held: a hold needs an attempt that returned (not installed, no error) (shared with C02)
+	ruleShadowedVerdict(c, []string{"server", "rib"}) // the verdict a function goes on to test is the one its attempts assigned
 }
 
 // The RPC handlers reject unknown and empty network-instance names by looking
